@@ -23,10 +23,13 @@ import (
 	"github.com/mandykoh/prism/linear"
 
 	"verif/c11/trial"
+	"verif/internal/build"
 	"verif/internal/ld"
 	"verif/internal/seeds"
 	"verif/internal/sp"
 )
+
+var family, damaged [][]byte
 
 var (
 	srcRGBA64 *image.RGBA64
@@ -66,6 +69,24 @@ func setup() {
 			files["webp"] = s.Data
 		}
 	}
+	// a family of files with DIFFERENT embedded profiles (so that buffers shared between concurrent or successive
+	// loads show as wrong bytes) and damaged variants (error paths release resources too)
+	for i := 0; i < 8; i++ {
+		prof := build.SimpleProfile(build.TextDesc(fmt.Sprintf("profile number %d", i)), 300+i*517)
+		for k := range prof[200:] {
+			prof[200+k] ^= byte(i*37 + k)
+		}
+		p, _ := build.PNG{W: uint32(10 + i), H: 7, Depth: 8, ColorType: 2, Pre: []build.Chunk{{Type: "tEXt", Data: make([]byte, 30+i)}, build.ICCPChunk("p", prof, 6)}, IDAT: make([]byte, 3000)}.Bytes()
+		j, _ := build.JPEG{Segs: append(build.ICCSegs(prof, []int{100 + i}), build.Seg{Marker: 0xC0, Data: build.SOF(8, 7, uint16(10+i), [][3]byte{{1, 0x11, 0}})}), SOS: []byte{1, 1, 0, 0, 63, 0}, Entropy: make([]byte, 3000)}.Bytes()
+		w, _ := build.WebP{Chunks: []build.RIFFChunk{{FourCC: "VP8X", Data: build.VP8XHeader(0x20, uint32(9+i), 6)}, {FourCC: "ICCP", Data: prof}, {FourCC: "VP8L", Data: build.VP8LHeader(uint16(9+i), 6, false)}}}.Bytes()
+		family = append(family, p, j, w)
+	}
+	wd, _ := build.WebP{Chunks: []build.RIFFChunk{{FourCC: "VP8X", Data: build.VP8XHeader(0x20, 9, 6)}, {FourCC: "ICCP", Data: make([]byte, 4000)}}}.Bytes()
+	damaged = append(damaged, wd[:len(wd)-1500]) // truncated ICCP
+	pd, _ := build.PNG{W: 3, H: 3, Depth: 8, ColorType: 2, Pre: []build.Chunk{build.RawICCPChunk("bad", []byte{0x78, 0x9c, 0xFF, 0xFF, 1, 2, 3})}, IDAT: []byte{1}}.Bytes()
+	damaged = append(damaged, pd)
+	jd, _ := build.JPEG{Segs: []build.Seg{build.ICCSeg(1, 3, []byte("abc")), {Marker: 0xC0, Data: build.SOF(8, 7, 9, [][3]byte{{1, 0x11, 0}})}}, SOS: []byte{1, 1, 0, 0, 63, 0}}.Bytes()
+	damaged = append(damaged, jd, []byte("RIFF\x10\x00\x00\x00WEBPVP8X\x0a\x00"), []byte{0xFF, 0xD8, 0xFF})
 }
 
 func space(i int) *sp.API { return &sp.Spaces[i%len(sp.Spaces)] }
@@ -181,6 +202,24 @@ func run(op trial.Op) uint64 {
 			d = fmt.Sprint(digest(buf.Bytes()))
 		}
 		return digest(o.OK, o.Format, o.W, o.H, o.Bits, o.ICC, o.ICCErr, d)
+	case "LoadFamily":
+		// one of 24 files with different profiles; every fourth call loads a damaged file first
+		if a%4 == 0 {
+			ld.Run("auto", bytes.NewReader(damaged[a%len(damaged)]))
+		}
+		d := family[a%len(family)]
+		target := "auto"
+		if a%3 == 0 {
+			target = []string{"png", "jpeg", "webp"}[a%len(family)%3]
+		}
+		o := ld.Run(target, bytes.NewReader(d))
+		rest := 0
+		if o.Stream != nil {
+			var buf bytes.Buffer
+			buf.ReadFrom(o.Stream)
+			rest = int(digest(buf.Bytes()))
+		}
+		return digest(o.OK, o.Format, o.W, o.H, o.ICC, o.ICCErr, rest)
 	case "Adapt":
 		ad := ciexyz.AdaptBetweenXYYWhitePoints(ciexyy.D50, ciexyy.Color{X: 0.3 + float32(a%100)/1000, Y: 0.33, YY: 1})
 		return digest(ad.Apply(ciexyz.Color{X: 0.2, Y: 0.5, Z: 0.7}), ciexyz.Color{X: float32(a%97) / 97, Y: 0.4, Z: 0.9}.ToLAB(ciexyz.D65))
